@@ -8,6 +8,10 @@ CONSTANTS
   RepFlags = {1, 171}
   MaxFaults = 3
   SweepFaults = 1
+  TailBases = {}
+  TailPos = 0
+  ShortKinds = {}
+  ShortLen = 0
 INIT Init
 NEXT Next
 CONSTRAINT Budget
